@@ -175,7 +175,8 @@ static void gen_constructor(plan_t *p, rng_t *r, int slot, int isnew, int hard, 
         o = plan_op(p, 0, kind, 2, (long)slot, (long)nlines);
         op_str(o, buf, tot);
         { int nf = rng_range(r, 0, 8); static const int lims[] = { 1, 2, 3, 100, 1000, 4094, 4095, 4096 };
-          for (int i = 0; i < nf; i++) op_fault(o, rng_chance(r, 1, 3) ? FAULT(FC_READ, FO_FULL, 0) : FAULT(FC_READ, FO_SHORT, lims[rng_below(r, 8)])); }
+          for (int i = 0; i < nf; i++) op_fault(o, rng_chance(r, 1, 3) ? FAULT(FC_READ, FO_FULL, 0) : FAULT(FC_READ, FO_SHORT, lims[rng_below(r, 8)]));
+          if (hard && rng_chance(r, 1, 3)) op_fault(o, FAULT(FC_READ, FO_EIO, 0)); }       /* the stream fails after nf reads */
     } else {
         int nb = rng_chance(r, 1, 4);
         snprintf(kind, sizeof(kind), "%s_fd", pre);
